@@ -1,6 +1,9 @@
 import SqlObjVerif.Lemmas.Inherit
 import SqlObjVerif.Lemmas.InheritXCreateChain
 import SqlObjVerif.Lemmas.InheritXGetChain
+import SqlObjVerif.Lemmas.InhSelXSelect
+import SqlObjVerif.Lemmas.InhSelXBy
+import SqlObjVerif.Lemmas.InhSelXAll
 /-!
 # C15 — inheritance hierarchies stay consistent across their tables
 
@@ -758,4 +761,190 @@ example : (match getC X0 w1 0 1 (.conn 1), getC X0 w1 0 2 (.conn 1), getC X0 w1 
     | .ret wa a, .ret _ b, .exc _ e => (a, b, e.cls, wa.par 1 3 1, wa.par 1 1 1, wa.par 1 0 1)
     | _, _, _ => (.none, .none, .exception, .none, .none, .none)) =
     (.inst 1 3 1, .inst 1 5 2, .notFound, .inst 1 1 1, .inst 1 0 1, .none) := by decide +kernel
+end SqlObjVerif.Inherit
+
+namespace SqlObjVerif.Inherit
+open SqlObjVerif.InhSel
+open SqlObjVerif.PyIS (Sql)
+
+/-! ## The SELECT side: `InheritableSelectResults.__init__` IS the translated source
+
+`selInitX` (`Model/InhSelX.lean`) RUNS the PyInhSel program `vlib/extractors/pyinhsel.py` translated from
+`InheritableSelectResults.__init__` on this run (deep embedding `Model/PyInhSel.lean`), against the interface stated in the
+header of `Model/InhSelX.lean`.  The database is the hand model's per-level tables; `Sat db s e σ` says `σ` (table ↦ row
+id) is a row of `SELECT … FROM <tables of e>, <table of s> WHERE e`. -/
+
+/-- ANY class forest, ANY clause, ANY order of `allClasses()`: the translated constructor hands `SelectResults.__init__`
+    the caller's clause AND-ed with the joins computed by the pure functions `regStep` (which classes' tables are used),
+    `step2` / `step3` (deepest used classes ↦ topmost used ancestor) and `joinsOf` (`child.id = parent.id` up the chain) -/
+theorem C15_translated_selectInit_eq_algo (X : SCtx) (h : X.T.WF) (w : SW) (s : Nat) (g : Sql) (oc : Option Nat) :
+    ∃ tabs : List Nat, (∀ b, b ∈ tabs ↔ (b ∈ sqlTables g ∨ b = s)) ∧
+    selInitX X w s (.sql g) (opsOf oc) =
+      .ret { w with made := some ⟨s,
+        (joinsOf X.T (((X.reg.foldl (regStep tabs) []).map (·.1)).foldl
+            (step2 X.T (X.reg.foldl (regStep tabs) [])) (X.reg.foldl (regStep tabs) []))).foldl Sql.and g,
+        oc.getD X.dflt⟩ } .none :=
+  selInitX_run X h w s g oc
+
+/-- every table the query uses lies on the class chain of the deepest used class `d` (own and inherited columns of one
+    class): whatever the registry order, the clause is the caller's AND `child.id = parent.id` from `d` up to the topmost
+    used class `t`; its rows: the joined ids with a row at every level of that segment that satisfy the caller's clause -/
+theorem C15_translated_selectInit_chain (X : SCtx) (h : X.T.WF) (hreg : X.reg.Nodup) (w : SW) (s : Nat) (g : Sql)
+    (oc : Option Nat) (d : Nat) (hdu : d ∈ sqlTables g ++ [s])
+    (hall : ∀ a, a ∈ sqlTables g ++ [s] → a ∈ X.reg ∧ a ∈ X.T.anc d) :
+    ∃ t pre post, X.T.anc d = pre ++ t :: post ∧ t ∈ sqlTables g ++ [s] ∧ (∀ z, z ∈ post → z ∉ sqlTables g ++ [s]) ∧
+      selInitX X w s (.sql g) (opsOf oc) =
+        .ret { w with made := some ⟨s, (linksTo t (X.T.anc d)).foldl Sql.and g, oc.getD X.dflt⟩ } .none ∧
+      (∀ a, a ∈ sqlTables ((linksTo t (X.T.anc d)).foldl Sql.and g) ++ [s] → a ∈ pre ++ [t]) ∧
+      ∀ (db : DB) (σ : Nat → Nat), Sat db s ((linksTo t (X.T.anc d)).foldl Sql.and g) σ ↔
+        ((∀ a, a ∈ pre ++ [t] → σ a = σ d ∧ db.has a (σ d) = true) ∧ sqlEval db σ g = true) :=
+  selInit_chain X h hreg w s g oc d hdu hall
+
+/-- **the query `cls.select(f)` runs** (source class: the root; clause: `f` over own and inherited columns AND
+    `parent.childName == cls`): for every class forest, registry order and database, the rows of the query the translated
+    constructor builds are exactly the ids the hand model's `selectRow` selects, and each id is delivered by ONE row -/
+theorem C15_translated_selectInit_eq_model (X : SCtx) (h : X.T.WF) (hreg : X.reg.Nodup) (w : SW) (c : Nat) (f : Filter)
+    (oc : Option Nat) (hregAll : ∀ a, a ∈ X.T.anc c → a ∈ X.reg) (hf : ∀ a, a ∈ f.classes → a ∈ X.T.anc c) :
+    ∃ e, selInitX X w (X.T.root c) (.sql (selClause X.T c f)) (opsOf oc) =
+        .ret { w with made := some ⟨X.T.root c, e, oc.getD X.dflt⟩ } .none ∧
+      ∀ db : DB,
+        (∀ i, (∃ σ, Sat db (X.T.root c) e σ ∧ σ (X.T.root c) = i) ↔ (selectRow X.T db c f i).isSome = true) ∧
+        (∀ σ σ', Sat db (X.T.root c) e σ → Sat db (X.T.root c) e σ' → σ (X.T.root c) = σ' (X.T.root c) →
+          ∀ a, a ∈ sqlTables e ++ [X.T.root c] → σ a = σ' a) :=
+  selInit_select X h hreg w c f oc hregAll hf
+
+/-- `C15_child_select_only_own_kind` about the translated source: with no orphans, the query built for `cls.select(f)`
+    returns exactly the ids with a row in `cls`'s OWN table (the class or a subclass: own kind and descendants only)
+    that satisfy the filter — also for inherited columns in the filter -/
+theorem C15_translated_child_select_own_kind (X : SCtx) (h : X.T.WF) (hreg : X.reg.Nodup) (w : SW) (c : Nat) (f : Filter)
+    (oc : Option Nat) (hregAll : ∀ a, a ∈ X.T.anc c → a ∈ X.reg) (hf : ∀ a, a ∈ f.classes → a ∈ X.T.anc c) :
+    ∃ e, selInitX X w (X.T.root c) (.sql (selClause X.T c f)) (opsOf oc) =
+        .ret { w with made := some ⟨X.T.root c, e, oc.getD X.dflt⟩ } .none ∧
+      ∀ db : DB, NoOrphan X.T db → ∀ i,
+        ((∃ σ, Sat db (X.T.root c) e σ ∧ σ (X.T.root c) = i) ↔ (db.has c i = true ∧ f.eval db i = true)) ∧
+        ((∃ σ, Sat db (X.T.root c) e σ ∧ σ (X.T.root c) = i) →
+          ∃ m, get X.T db (X.T.root c) i = .ok m ∧ LeafRow db m i ∧ c ∈ X.T.anc m) := by
+  obtain ⟨e, hrun, hsem⟩ := selInit_select X h hreg w c f oc hregAll hf
+  refine ⟨e, hrun, ?_⟩
+  intro db inv i
+  have hA := (hsem db).1 i
+  have hown := C15_child_select_only_own_kind X.T h db inv c f i
+  have hnone : (selectRow X.T db c f i).isSome = true ↔ (db.has c i = true ∧ f.eval db i = true) := by
+    have := hown.1
+    cases hs : selectRow X.T db c f i with
+    | none => rw [hs] at this; simpa using this.1 rfl
+    | some r =>
+      rw [hs] at this
+      simp only [Option.isSome_some, true_iff]
+      apply Classical.byContradiction
+      intro hn
+      have := this.2 hn
+      cases this
+  refine ⟨hA.trans hnone, ?_⟩
+  intro hex
+  have hsome := hA.1 hex
+  cases hs : selectRow X.T db c f i with
+  | none => rw [hs] at hsome; cases hsome
+  | some r =>
+    obtain ⟨m, hr, hleaf, hcm⟩ := hown.2 r hs
+    refine ⟨m, ?_, hleaf, hcm⟩
+    have hsel := selectRow_eq h inv c f i
+    rw [hs] at hsel
+    by_cases hc : (db.has c i && f.eval db i) = true
+    · simp only [hc, if_true, Option.some.injEq] at hsel
+      rw [← hsel, hr]
+    · simp [hc] at hsel
+
+/-- **the query `cls.selectBy(**kw)` runs** (source class: `cls` itself; clause: the conjunction of `column == value`
+    over own and inherited columns): the rows of the query the translated constructor builds are exactly the ids the hand
+    model's `selectByRow` selects (join from `cls` up to the topmost class mentioned), each id delivered by ONE row -/
+theorem C15_translated_selectInit_selectBy_eq_model (X : SCtx) (h : X.T.WF) (hreg : X.reg.Nodup) (w : SW) (c : Nat)
+    (kvs : List (Nat × Nat × Val)) (oc : Option Nat)
+    (hregAll : ∀ a, a ∈ X.T.anc c → a ∈ X.reg) (hk : ∀ y, y ∈ kvs → y.1 ∈ X.T.anc c) :
+    ∃ e, selInitX X w c (.sql (byClause kvs)) (opsOf oc) = .ret { w with made := some ⟨c, e, oc.getD X.dflt⟩ } .none ∧
+      ∀ db : DB,
+        (∀ i, (∃ σ, Sat db c e σ ∧ σ c = i) ↔ (selectByRow X.T db c kvs i).isSome = true) ∧
+        (∀ σ σ', Sat db c e σ → Sat db c e σ' → σ c = σ' c → ∀ a, a ∈ sqlTables e ++ [c] → σ a = σ' a) :=
+  selInit_selectBy X h hreg w c kvs oc hregAll hk
+
+/-- `C15_child_selectBy_only_own_kind` about the translated source: with no orphans the query built for
+    `cls.selectBy(**kw)` returns exactly the ids with a row in `cls`'s own table whose (own and inherited) columns hold
+    the given values -/
+theorem C15_translated_child_selectBy_own_kind (X : SCtx) (h : X.T.WF) (hreg : X.reg.Nodup) (w : SW) (c : Nat)
+    (kvs : List (Nat × Nat × Val)) (oc : Option Nat)
+    (hregAll : ∀ a, a ∈ X.T.anc c → a ∈ X.reg) (hk : ∀ y, y ∈ kvs → y.1 ∈ X.T.anc c) :
+    ∃ e, selInitX X w c (.sql (byClause kvs)) (opsOf oc) = .ret { w with made := some ⟨c, e, oc.getD X.dflt⟩ } .none ∧
+      ∀ db : DB, NoOrphan X.T db → ∀ i,
+        ((∃ σ, Sat db c e σ ∧ σ c = i) ↔ (db.has c i = true ∧ kvsHold db i kvs = true)) := by
+  obtain ⟨e, hrun, hsem⟩ := selInit_selectBy X h hreg w c kvs oc hregAll hk
+  refine ⟨e, hrun, ?_⟩
+  intro db inv i
+  refine ((hsem db).1 i).trans ?_
+  rw [selectByRow_eq h inv c kvs i]
+  by_cases hc : (db.has c i && kvsHold db i kvs) = true
+  · simp only [hc, if_true, Option.isSome_some, true_iff]
+    simpa using hc
+  · simp only [hc]
+    simp only [Bool.and_eq_true] at hc
+    simp [hc]
+
+/-- `C15_fetch_most_derived` about the translated source: with no orphans (and the tag column only where the class has
+    one), the translated `get` entered through ANY class `e` of the hierarchy — calling itself down the `childName` chain
+    and up the `_parent` chain — raises `SQLObjectNotFound` exactly when `e`'s table has no row `i`, and otherwise returns
+    the instance of the unique most-derived class `m` (a leaf row, `e` on its chain), the same through every level -/
+theorem C15_translated_fetch_most_derived (X : Ctx) (h : X.T.WF) (w : XW) (k e i : Nat)
+    (inv : NoOrphan X.T (w.cur k)) (hcold : ∀ a, w.par k a i = .none)
+    (htag : ∀ c r, w.cur k c i = some r → X.T.inh c = false → r.child = none) :
+    ((w.cur k).has e i = false → ∃ w', w'.cur = w.cur ∧ getC X w e i (.conn k) = .exc w' ⟨.notFound, 0⟩) ∧
+    ((w.cur k).has e i = true → ∃ w' m, w'.cur = w.cur ∧ getC X w e i (.conn k) = .ret w' (.inst k m i) ∧
+        LeafRow (w.cur k) m i ∧ e ∈ X.T.anc m ∧
+        ∀ e', X.T.root e' = X.T.root e → (w.cur k).has e' i = true →
+          ∃ w'', getC X w e' i (.conn k) = .ret w'' (.inst k m i)) := by
+  obtain ⟨w', hw', hget⟩ := C15_translated_get_eq_model X h w k e i hcold htag
+  have hmd := C15_fetch_most_derived X.T h (w.cur k) inv e i
+  constructor
+  · intro hno
+    rw [hmd.1 hno] at hget
+    exact ⟨w', hw', hget⟩
+  · intro hrow
+    obtain ⟨m, hm, hleaf, hem, hall⟩ := hmd.2 hrow
+    rw [hm] at hget
+    refine ⟨w', m, hw', hget, hleaf, hem, ?_⟩
+    intro e' hroot hrow'
+    obtain ⟨w'', _, hget'⟩ := C15_translated_get_eq_model X h w k e' i hcold htag
+    rw [hall e' hroot hrow'] at hget'
+    exact ⟨w'', hget'⟩
+
+/-- `clause=None` (what `selectBy()` without keywords and `select()` pass) and `clause='all'`: the translated constructor
+    runs as for `SQLTrueClause` — so `C15_translated_selectInit_selectBy_eq_model` with `kvs = []` covers `cls.selectBy()` -/
+theorem C15_translated_selectInit_all (X : SCtx) (w : SW) (s : Nat) (ops cl : SVal) (hcl : cl = .none ∨ cl = .str "all") :
+    selInitX X w s cl ops = selInitX X w s (.sql .tt) ops :=
+  selInitX_all X w s ops cl hcl
+
+/-! ### Non-vacuity: the translated constructor runs (no `stuck`) on the three-level hierarchy `T0` -/
+
+/-- `K3.select(K0.col0 >= 0, connection=1)` → source `K0`, clause `K0.col0 >= 0 AND K1.childName = 'K3'`: one join
+    `K1.id = K0.id` is added (the registry yields the classes in the order 3, 0, 5, 1, 2, 4) -/
+example : (match selInitX ⟨T0, 0, [3, 0, 5, 1, 2, 4]⟩ ⟨fun _ => db0, none⟩ 0
+      (.sql (selClause T0 3 (.attr 0 0 .ge 0))) (opsOf (some 1)) with
+    | .ret w _ => w.made
+    | _ => none) = some ⟨0, .and (.and (.col 0 0 .ge 0) (.kind 1 3)) (.idEq 1 0), 1⟩ := by decide +kernel
+/-- `K3.selectBy(<column 1 of K0> = 1)` → source `K3`: joins `K3.id = K1.id AND K1.id = K0.id` -/
+example : (match selInitX ⟨T0, 0, [0, 1, 2, 3, 4, 5]⟩ ⟨fun _ => db0, none⟩ 3 (.sql (.col 0 1 .eq 1)) (opsOf none) with
+    | .ret w _ => w.made
+    | _ => none) = some ⟨3, .and (.and (.col 0 1 .eq 1) (.idEq 3 1)) (.idEq 1 0), 0⟩ := by decide +kernel
+/-- the hypotheses of `C15_translated_selectInit_eq_model` are satisfiable and its conclusion is not vacuous:
+    `K1.select(K0.col0 >= 0)` on `db0` — the query the translated constructor builds has a row for id 1 (a `K3`) and for
+    id 2 (a `K5`), none for id 3 (a `K2`, a sibling kind) -/
+example : ∃ e, selInitX ⟨T0, 0, [3, 0, 5, 1, 2, 4]⟩ ⟨fun _ => db0, none⟩ 0 (.sql (selClause T0 1 (.attr 0 0 .ge 0)))
+      (opsOf none) = .ret ⟨fun _ => db0, some ⟨0, e, 0⟩⟩ .none ∧
+    (∃ σ, Sat db0 0 e σ ∧ σ 0 = 1) ∧ (∃ σ, Sat db0 0 e σ ∧ σ 0 = 2) ∧ ¬ (∃ σ, Sat db0 0 e σ ∧ σ 0 = 3) := by
+  obtain ⟨e, hrun, hsem⟩ := C15_translated_selectInit_eq_model ⟨T0, 0, [3, 0, 5, 1, 2, 4]⟩ T0_wf (by decide)
+    ⟨fun _ => db0, none⟩ 1 (.attr 0 0 .ge 0) none (by decide) (by decide)
+  refine ⟨e, hrun, ?_, ?_, ?_⟩
+  · exact ((hsem db0).1 1).2 (by decide)
+  · exact ((hsem db0).1 2).2 (by decide)
+  · intro hex
+    have := ((hsem db0).1 3).1 hex
+    revert this; decide
 end SqlObjVerif.Inherit
